@@ -10,7 +10,7 @@ ap = argparse.ArgumentParser()
 ap.add_argument("crate"); ap.add_argument("subs", nargs="*")
 ap.add_argument("--timeout", type=int, default=600); ap.add_argument("--mem", type=int, default=10)
 ap.add_argument("--cut", action="append", default=[]); ap.add_argument("--unwind", type=int, default=None)
-ap.add_argument("--keep", action="store_true"); ap.add_argument("--replace", default=None, help="name of a registry list of (old,new) pretty-name regex pairs"); ap.add_argument("--jobs", type=int, default=12)
+ap.add_argument("--keep", action="store_true"); ap.add_argument("--replace", default=None, help="name of a registry list of (old,new) pretty-name regex pairs"); ap.add_argument("--jobs", type=int, default=12); ap.add_argument("--unwindset", action="append", default=[], help="REGEX:IDX:N")
 a = ap.parse_args()
 root = os.path.join(runner.SCRATCH, f"dev-{os.getpid()}"); os.makedirs(root, exist_ok=True)
 import registry
@@ -25,7 +25,7 @@ print(f"codegen {w:.0f}s, {len(metas)} harnesses")
 sel = [n for n in sorted(metas) if not a.subs or any(s in n for s in a.subs)]
 budget = runner.Budget(runner.MEM_BUDGET_GB)
 with cf.ThreadPoolExecutor(a.jobs) as ex:
-    futs = {ex.submit(runner.run_kani_obligation, K(a.crate, n, timeout=a.timeout, mem_gb=a.mem, cut=a.cut, unwind=a.unwind, replace=(getattr(registry, a.replace) if a.replace else ())), metas[n], root, budget, a.keep): n for n in sel}
+    futs = {ex.submit(runner.run_kani_obligation, K(a.crate, n, timeout=a.timeout, mem_gb=a.mem, cut=a.cut, unwind=a.unwind, replace=(getattr(registry, a.replace) if a.replace else ()), unwindset=[(x.rsplit(":", 2)[0], int(x.rsplit(":", 2)[1]), int(x.rsplit(":", 2)[2])) for x in a.unwindset]), metas[n], root, budget, a.keep): n for n in sel}
     for f in cf.as_completed(futs):
         r = f.result()
         nc = sum(1 for v in r["covers"].values() if v)
